@@ -130,7 +130,7 @@ def ev(e, env, oracle):
     raise Stuck("kind " + k)
 
 
-def run(project, sub, init_reg, init_mem, havoc, oracle, max_visits=24, choices=(), on_block=None, abort_null=False):
+def run(project, sub, init_reg, init_mem, havoc, oracle, max_visits=24, choices=(), on_block=None, abort_null=False, pure_extern=None):
     """Run one function concretely. init_reg(name,size,temp)->int, init_mem(addr)->byte,
     havoc(k) -> (reg function, mem function) for the k-th call. Returns the list of observable events."""
     blocks = {b["tid"]: b for b in sub["blocks"]}
@@ -227,6 +227,25 @@ def run(project, sub, init_reg, init_mem, havoc, oracle, max_visits=24, choices=
                 return trace
             hr, hm = havoc(calls)
             calls += 1
+            if pure_extern is not None and k == "call":
+                # callee modelled as a pure extern function: callee-saved registers and memory survive, the stack pointer
+                # is popped by pure_extern["sp_pop"], every other register holds an arbitrary value afterwards
+                keep = set(pure_extern["callee_saved"])
+                spn = project["sp"]["name"]
+                new = {}
+                for r in project["regs"]:
+                    key = (r["name"], r["size"])
+                    if r["name"] == spn:
+                        new[key] = (env(r["name"], r["size"], False) + pure_extern["sp_pop"]) & mask(r["size"] * 8)
+                    elif r["name"] in keep:
+                        new[key] = env(r["name"], r["size"], False)
+                    else:
+                        new[key] = hr(r["name"], r["size"], False) & mask(r["size"] * 8)
+                regs.clear()
+                regs.update(new)
+                temps.clear()
+                tid = j["ret"]
+                continue
             regs.clear()
             temps.clear()
             mem.clear()
